@@ -393,7 +393,7 @@ def add_zone_isolation(spec, rng, prefer_pump=0.8, make_pump=0.5):
                 cands.append((p, sorted(seen), inside))
     if not cands:
         return None
-    with_pump = [x for x in cands if any(nm.startswith('PU') for nm in x[2])]
+    with_pump = [x for x in cands if any(nm.startswith(('PU', 'V')) for nm in x[2])]      # a booster pump or a control valve inside the zone
     p, nodes, inside = rng.choice(with_pump if with_pump and rng.random() < prefer_pump else cands)
     if not any(nm.startswith('PU') for nm in inside) and rng.random() < make_pump:
         # turn a pipe of the zone into a booster pump
